@@ -93,10 +93,11 @@ var expandableFloor = []string{
 }
 
 func checkC16(c *Ctx, r *Report) {
-	r.Rules = []string{"O7 decoder typestate (KnownFields(true) dominates the only Decode)", "O7 single parse path", "O7 no custom unmarshaler / free-form field", "F15 documented-expandable keys are expanded with the caller's mapping", "F15 scalar expansion is os.Expand only; lists via the trim-and-drop helper", "F15 every os.Expand uses the caller's mapping", "contents expanded only on the expand:true edge", "passphrase precedence", "F15-contents the value written back is TrimSpace(Expand(same field)) only", "F15-self every expansion store writes a field back from itself", "F15-overrides (tightened) the expansion visits every block of the overrides map", "O7-no-custom-unmarshal also for named non-struct field types"}
+	r.Rules = []string{"O7 decoder typestate (KnownFields(true) dominates the only Decode)", "O7 single parse path", "O7 no custom unmarshaler / free-form field", "F15 documented-expandable keys are expanded with the caller's mapping", "F15 scalar expansion is os.Expand only; lists via the trim-and-drop helper", "F15 every os.Expand uses the caller's mapping", "contents expanded only on the expand:true edge", "passphrase precedence", "F15-contents the value written back is TrimSpace(Expand(same field)) only", "F15-self every expansion store writes a field back from itself", "F15-overrides (tightened) the expansion visits every block of the overrides map", "O7-no-custom-unmarshal also for named non-struct field types", "O7-error-unfiltered the strict decoder's error is reported as it is", "F15-contents (extended) whether an entry is expanded depends on its expand flag alone", "F15-passphrase (extended) no state carried between the rows of a table-driven selection"}
 	r.Explanation = "Typestate and coverage rules over go/ssa, go/types and the repository's reference documentation. (O7) The only decode of a value containing nfpm.Config in non-test module code runs on a yaml.v3 decoder on which KnownFields(true) — constant true — is called on a dominating path; Parse, ParseFile and ParseFileWithEnvMapping all route through it; no module type reachable from Config declares UnmarshalYAML/UnmarshalText or has an interface/yaml.Node field, and the only maps are the documented ones. (F15) The key paths that www/docs/configuration.md documents as expanding environment variables are read from the commented reference YAML, mapped to Go fields through the yaml struct tags, and each must be assigned in the expansion function from os.Expand applied to the same field with the configuration's mapping function: scalars through os.Expand alone (so a value without '$' is unchanged), lists through the helper whose loop trims and drops empty items; every os.Expand in the module takes the mapping field (or expands a constant variable name); content source/destination stores are live only when the entry's expand flag is true (abstract evaluation); each format's passphrase is first the general variable and then, guarded by non-emptiness, the format-specific one."
 	r.Explanation += " The value stored into a content entry's source/destination is strings.TrimSpace(os.Expand(<same field>)) (directly or through a module helper that is exactly that chain) - no further rewriting step."
 	r.Explanation += " (F15-self) in the expansion family a store whose value derives from configuration fields derives from the destination field. F15-overrides now requires the block to be the value of a range over the map or a lookup keyed by such a range's key. O7-no-custom-unmarshal also inspects the named types of fields, list elements and map values."
+	r.Explanation += " (O7-error-unfiltered) the error of the strict Decode reaches its nil test and return without passing through a module function. F15-contents is also evaluated with expand=true and source (destination) empty: the other path is still expanded."
 	r.Assumptions = []string{
 		"yaml.v3 Decoder.KnownFields(true) rejects unknown keys at every nesting level of struct-typed targets",
 		"os.Expand leaves a string without '$' unchanged",
@@ -186,6 +187,43 @@ func checkO7(c *Ctx, r *Report) {
 				}
 			})
 			r.Check(strict, "O7-strict", construct, c.instrPos(call), "KnownFields(true) must be called on the same decoder on every path before Decode; otherwise unknown keys are silently ignored")
+			// what the strict decoder reports is what the parser reports: its
+			// error is tested and returned as it is (or wrapped), not handed
+			// to a function that may decide some of the complaints away
+			filtered := ""
+			if call.Referrers() != nil {
+				for _, ref := range *call.Referrers() {
+					c2, isCall := ref.(*ssa.Call)
+					if !isCall {
+						continue
+					}
+					if o2 := calleeObj(c2); o2 != nil && (qualifiedName(o2) == "fmt.Errorf" || qualifiedName(o2) == "errors.Is" || qualifiedName(o2) == "errors.As") {
+						continue
+					}
+					filtered = shorten(valueExpr(c, c2, 0), 60)
+				}
+			}
+			// stored in the named result / a cell and then passed on
+			if st := storedInCell(call); st != nil && st.Referrers() != nil {
+				for _, ref := range *st.Referrers() {
+					ld, isLd := ref.(*ssa.UnOp)
+					if !isLd || ld.Referrers() == nil || !instrDominates(call, ld) {
+						continue
+					}
+					for _, r2 := range *ld.Referrers() {
+						if c2, isCall := r2.(*ssa.Call); isCall {
+							if o2 := calleeObj(c2); o2 != nil && (qualifiedName(o2) == "fmt.Errorf" || qualifiedName(o2) == "errors.Is" || qualifiedName(o2) == "errors.As") {
+								continue
+							}
+							if sc := c2.Call.StaticCallee(); sc != nil && c.isModuleFunc(sc) {
+								filtered = shorten(valueExpr(c, c2, 0), 60)
+							}
+						}
+					}
+				}
+			}
+			r.Check(filtered == "", "O7-error-unfiltered", "the strict decoder's error is reported as it is ("+c.funcKey(fn)+")", c.instrPos(call),
+				"the error of the strict Decode is handed to "+filtered+" before it is tested: complaints about unknown keys can be dropped there, at any nesting level")
 		})
 	}
 	r.Floor("O7-strict", decodes, 1)
@@ -640,6 +678,31 @@ func checkF15(c *Ctx, r *Report) {
 	if contentsFn == nil {
 		r.Unresolved("contents expansion", "no store to a content entry in the expansion functions")
 	} else {
+		// the decision to expand an entry depends on its expand flag alone:
+		// with the flag set and either path empty the other one is still
+		// expanded (directories and ghosts have no source)
+		for _, empty := range []string{"Source", "Destination"} {
+			ev := newEvaluator(c)
+			obj := newAObj("content")
+			obj.Fields["Expand"] = cBool(true)
+			obj.Fields[empty] = cStr("")
+			ev.Defaults[c.contentPtrKey()] = obj
+			fr := ev.Explore(contentsFn, make([]AV, len(contentsFn.Params)))
+			other := "Destination"
+			if empty == "Destination" {
+				other = "Source"
+			}
+			stored := false
+			for _, li := range fr.LiveInstrs() {
+				if st, ok := li.In.(*ssa.Store); ok {
+					if fa, ok := st.Addr.(*ssa.FieldAddr); ok && isContentPtr(fa.X.Type()) && fieldName(fa.X.Type(), fa.Field) == other {
+						stored = true
+					}
+				}
+			}
+			r.Check(stored, "F15-contents", fmt.Sprintf("content expansion[expand=true, %s empty] still expands %s", strings.ToLower(empty), strings.ToLower(other)), c.pos(contentsFn.Pos()),
+				"with the entry's "+strings.ToLower(empty)+" empty the expansion of its "+strings.ToLower(other)+" is not reachable: whether an entry that opted in is expanded would depend on more than its expand flag")
+		}
 		for _, flag := range []bool{false, true} {
 			ev := newEvaluator(c)
 			obj := newAObj("content")
@@ -787,7 +850,43 @@ func checkF15(c *Ctx, r *Report) {
 		}
 		ok := top != nil
 		why := "the expansion function never assigns this field"
-		if ok {
+		carried := ""
+		if tblElem != nil {
+			// each row is decided on its own: the value written for a row
+			// does not come from a variable that earlier rows have updated
+			forEachInstr(tblElem.Parent(), func(in ssa.Instruction) {
+				st, isSt := in.(*ssa.Store)
+				if !isSt {
+					return
+				}
+				if ia, f, okE := loopElemField(st.Addr); !okE || ia != tblElem || f != tblTarget {
+					return
+				}
+				seen := map[ssa.Value]bool{}
+				var walk func(v ssa.Value, d int)
+				walk = func(v ssa.Value, d int) {
+					phi, isPhi := v.(*ssa.Phi)
+					if !isPhi || seen[v] || d > 6 {
+						return
+					}
+					seen[v] = true
+					for i, e := range phi.Edges {
+						pred := phi.Block().Preds[i]
+						if phi.Block().Dominates(pred) && e != ssa.Value(phi) {
+							if _, isK := e.(*ssa.Const); !isK {
+								carried = fmt.Sprintf("the value stored at %s comes from a variable that an earlier iteration of the loop has set (%s)", c.instrPos(st), shorten(valueExpr(c, phi, 0), 80))
+							}
+						}
+						walk(e, d+1)
+					}
+				}
+				walk(st.Val, 0)
+			})
+		}
+		if ok && carried != "" {
+			ok = false
+			why = carried + ": a format-specific passphrase found for one format becomes the fallback of the formats after it"
+		} else if ok {
 			var parts []string
 			for _, cell := range []struct{ spec, want string }{{"", "G"}, {"S", "S"}} {
 				ev := newEvaluator(c)
@@ -1333,4 +1432,18 @@ func expandChainHelper(c *Ctx, fn *ssa.Function) int {
 		}
 	}
 	return idx
+}
+
+// storedInCell: the cell (named result, captured variable) the call's error
+// result is stored into, if any.
+func storedInCell(call *ssa.Call) ssa.Value {
+	if call.Referrers() == nil {
+		return nil
+	}
+	for _, ref := range *call.Referrers() {
+		if st, ok := ref.(*ssa.Store); ok && st.Val == ssa.Value(call) {
+			return st.Addr
+		}
+	}
+	return nil
 }
